@@ -13,7 +13,7 @@ EXPLANATION = (
     "inlined as the literal of their folded tag, CONST emits no instruction; (R3) both constant "
     "passes evaluate with eval_const and convert with CastVariant::cast when the name carries a suffix; "
     "(R4) constant lookup consults the current scope before the global scope at every two-level "
-    "lookup, so the folder and the expression converter resolve a shadowing CONST alike.")
+    "lookup, so the folder and the expression converter resolve a shadowing CONST alike.  (R6) where the error of evaluating or converting a constant is re-wrapped, the wrapper looks at the error it receives (the kind - Overflow, Division by zero - reaches the user unchanged).")
 NOT_DECIDED = ["equality of the folded value with the run-time value (value-level)"]
 
 ERR_NAMES = {"LinterError(NotFiniteNumber)": "NotFiniteNumber"}
@@ -192,6 +192,61 @@ def r5_stored_constant_is_the_converted_value(ctx, rule="C14.R5"):
     ctx.require(rule, 1)
 
 
+def r6_const_errors_keep_their_kind(ctx, rule="C14.R6"):
+    """`rejected for overflow or division by zero exactly when evaluating it at run time would raise
+    that error`: the folder and the conversion to the constant's suffix report the error the value
+    arithmetic reported.  Where the checker evaluates or converts a constant (a call of eval_const or
+    of CastVariant::cast) and re-wraps the error (map_err), the wrapping function looks at the error
+    it receives - one that ignores its argument reports every failure as the same kind
+    (`CONST A% = 40000` inside a SUB: Type mismatch instead of Overflow)."""
+    prog = ctx.prog
+    n = 0
+    for f in sorted(prog.fns.values(), key=lambda f: f.id):
+        if f.crate != "rusty_linter" or f.kind == "const":
+            continue
+        body = f.body
+        names = {(t.get("cpath") or "").split("::")[-1] for _b, t in body.calls()}
+        if not (names & {"eval_const", "cast"}):
+            continue
+        pv = mir.Prov(body)
+        for b, t in body.calls():
+            if not (t.get("cpath") or "").endswith("Result::<T, E>::map_err") or len(t["args"]) < 2:
+                continue
+            recv = pv.of_operand(t["args"][0])
+            if not mir.origin_mentions(recv, lambda z: z[0] == "call" and z[1].split("::")[-1] in ("eval_const", "cast")):
+                continue
+            pl = mir.op_place(t["args"][1])
+            cl = None
+            if pl is not None:
+                d = body.single_def(pl[0])
+                if d and d[1] != "T" and d[2]["r"].get("a") == "closure":
+                    cl = prog.fns.get(d[2]["r"]["def"])
+            if cl is None:
+                continue        # a named function (From::from ...) receives the error by construction
+            uses = False
+            for blk in cl.body.blocks:
+                for stt in blk["s"]:
+                    if stt["k"] != "assign":
+                        continue
+                    r = stt["r"]
+                    places = [r.get("p")] + [mir.op_place(r[k]) for k in ("o", "a", "b") if isinstance(r.get(k), dict)] + \
+                             [mir.op_place(o) for o in r.get("ops", [])]
+                    if any(p_ is not None and p_[0] == 2 for p_ in places):
+                        uses = True
+                tt = blk["t"]
+                if tt["k"] == "call" and any(mir.op_place(a) is not None and mir.op_place(a)[0] == 2 for a in tt["args"]):
+                    uses = True
+            n += 1
+            name = f.path.split("::", 1)[1]
+            ctx.decide(uses, rule, "%s:%s@%d" % (rule, name, n), "%s:%s" % (f.file, t.get("ln")),
+                       "the wrapped error is built from the error received",
+                       "%s replaces whatever error the evaluation / conversion of a constant reports (line %s) by a fixed "
+                       "one: an overflow in `CONST A%% = 200 * 200` is no longer reported as the Overflow the same "
+                       "expression raises at run time" % (name, t.get("ln")))
+    ctx.analysed_units(rule, rewrapped_errors=n)
+    ctx.require(rule, 3)
+
+
 def run(ctx):
     common.install(ctx)
     T = ot.OpTables(ctx.prog)
@@ -201,3 +256,4 @@ def run(ctx):
     from . import c13
     c13.r5_local_before_global(ctx, "C14.R4")
     r5_stored_constant_is_the_converted_value(ctx)
+    r6_const_errors_keep_their_kind(ctx)
